@@ -63,8 +63,24 @@ def _run_one(ops):
     return res
 
 
+def _lifecycle_failed(ops, res):
+    return any(op_of(l) in ("start", "restart", "stop") and not r.startswith("ok") for l, r in zip(ops, res)) or \
+        any(r.startswith("<harness") for r in res)
+
+
+def _run_session(ops):
+    """one server session; a session whose server failed to come up / go down (seen only on a saturated machine) is run again -
+    these histories contain nothing that makes a healthy server refuse to start, and a deterministic failure repeats"""
+    res = _run_one(ops)
+    for _ in range(2):
+        if not _lifecycle_failed(ops, res):
+            break
+        res = _run_one(ops)
+    return res
+
+
 def run_case(raw):
-    impl = _run_one(raw)
+    impl = _run_session(raw)
     proj = {}
     for t in tenants_of(raw[0]):
         if t["flag"] in ("off", "admin"):
@@ -75,7 +91,7 @@ def run_case(raw):
         if len(idx) == len(raw):
             proj[t["name"]] = (idx, [impl[i] for i in idx])      # nobody else spoke
             continue
-        proj[t["name"]] = (idx, _run_one([raw[i] for i in idx]))
+        proj[t["name"]] = (idx, _run_session([raw[i] for i in idx]))
     return impl, proj
 
 
